@@ -43,6 +43,20 @@ CHECKS = [
         "note": "Trusts numpy.linalg.slogdet/solve and the finite-difference error bound (1e-8 relative).",
     },
     {
+        "property_id": "C19",
+        "level": "exploration",
+        "technique": "model-based stateful testing (Hypothesis-generated operation histories): every request vs a "
+                     "freshly built instance, byte snapshots of operands and caller arrays, single-option mutants "
+                     "for equality",
+        "text": "Histories of lazy-attribute requests in arbitrary order, operators, copies/pickles and in-place "
+                "write attempts on expression trees over all classes; results must equal those of a fresh instance, "
+                "operands and caller arrays stay byte-identical, accepted writes must not change the matrix, twins are "
+                "== and hash-equal, == implies equal arrays. Sampling, depth <= 2, size <= 5, histories <= 25 ops.",
+        "design_ref": "DESIGN.md section 2, C19",
+        "note": "float64 parameters without negative zeros; writes only through the array objects handed to "
+                "constructors.",
+    },
+    {
         "property_id": "C20",
         "level": "exploration",
         "technique": "property-based testing (Hypothesis): generated helper calls and operator programs "
